@@ -66,7 +66,7 @@ fn arity(name: &str) -> Option<usize> {
         | "touch" | "cow_read" | "iter_cow" | "push" | "bulk" | "pop_front"
         | "pop_front_slow" | "clone" | "to_vector" | "to_list" | "rebase_on" | "b_new"
         | "b_push_node" | "par_hash" | "par_mix" => 2,
-        "repeat" | "repeat_slow" | "set" | "cow_into" | "cow_make" | "rebase" => 3,
+        "repeat" | "repeat_slow" | "set" | "cow_into" | "cow_make" | "rebase" | "bulk_via" => 3,
         "cow_make2" => 4,
         _ => return None,
     })
